@@ -30,6 +30,9 @@ def validate(v, trace, name):
             e = evs[rej[0] - 1]
             d = "".join(map(str, e["digits"]))
             shape = "decade-like" if (len(d) == 4 and d[0] in "12" and d[3] == "0") else "other"
+            if e.get("tpl") in (24, 25):
+                v.failure({"kind": rej[1], "possessive_ordinal": True}, {"event": e})
+                continue
             v.failure({"kind": rej[1], "sfx": e["sfx"], "shape": shape, "last2": d[-2:], "variant": e["variant"]},
                       {"event": e})
     for f, d in common.LAST_DRIFTS[:20]:
